@@ -72,6 +72,7 @@ const (
 	sDrain
 	sAcceptAfterClose
 	sDrop
+	sCloseInject // Close; the server opens n forwards for the address inside the cancel round trip
 )
 
 const (
@@ -377,6 +378,10 @@ func (rn *runner) exec(st step) {
 	case sClose:
 		if l != nil {
 			e.doClose(l)
+		}
+	case sCloseInject:
+		if l != nil {
+			e.doCloseInject(l, st.n)
 		}
 	case sAcceptAfterClose:
 		if l != nil && rn.closed(l) {
@@ -842,7 +847,42 @@ func genPort0(j int64, r *rand.Rand) *plan {
 	return pl
 }
 
-// classes 6, 7: free mixture of everything.
+// class 7: a forward arrives while the listener is closing: the server
+// application, on receiving the cancel request and before replying, opens
+// k in 1..3 forwarded channels for exactly that address (success and failure
+// replies; no / one buffered forward before the Close; Accept idle / parked /
+// looping).
+func genDuringCancel(j int64, r *rand.Rand) *plan {
+	pl := &plan{class: "forward-during-cancel", probeAfter: true}
+	lp := genListener(r, int(j%4))
+	k := 1 + int((j/4)%3)
+	lp.cancelFail = (j/12)%2 == 1
+	mode := (j / 24) % 4 // 0,1: lazy idle; 2: lazy with Accept parked; 3: Accept loop
+	lp.eager = mode == 3
+	pl.lps = []lplan{lp}
+	pl.steps = append(pl.steps, step{op: sListen, li: 0})
+	for a := r.IntN(3); a > 0; a-- {
+		pl.steps = append(pl.steps, step{op: sOpen, li: 0, tk: tExact, n: 1}, step{op: sAccept, li: 0})
+	}
+	switch {
+	case mode == 1 && r.IntN(2) == 0:
+		pl.steps = append(pl.steps, step{op: sOpen, li: 0, tk: tExact, n: 1}) // one forward buffered before Close
+	case mode == 2:
+		pl.steps = append(pl.steps, step{op: sAccept, li: 0})
+	}
+	pl.steps = append(pl.steps, step{op: sCloseInject, li: 0, n: k})
+	if r.IntN(2) == 0 {
+		pl.steps = append(pl.steps, step{op: sAcceptAfterClose, li: 0})
+	}
+	if r.IntN(3) == 0 {
+		pl.steps = append(pl.steps, step{op: sClose, li: 0})
+	}
+	pl.finalDrain = []bool{false}
+	pl.closeOrder = []int{0}
+	return pl
+}
+
+// class 6: free mixture of everything.
 func genMixed(j int64, r *rand.Rand) *plan {
 	pl := &plan{class: "mixed", probeAfter: r.IntN(2) == 0}
 	n := 2 + r.IntN(3)
@@ -921,6 +961,8 @@ func genPlan(i int64, r *rand.Rand) *plan {
 		return genInflight(j, r)
 	case 5:
 		return genPort0(j, r)
+	case 7:
+		return genDuringCancel(j, r)
 	}
 	return genMixed(j, r)
 }
@@ -937,7 +979,7 @@ func genPlan(i int64, r *rand.Rand) *plan {
 func TestC37(t *testing.T) {
 	m := mon.New(t, "C37")
 	defer m.Done()
-	m.Rule("case = one scenario on its own connection: a real ssh.Client (public API) over a buffered in-memory duplex to a real ssh.NewServerConn whose application is the harness. The harness grants/refuses tcpip-forward / streamlocal-forward / cancel requests (port 0 -> assigned port, equal addresses granted twice, OpenSSH_5 retry path, malformed reply) and opens 0..20 forwarded-tcpip / forwarded-streamlocal channels per listener (own RFC 4254 §7.2 encoder) for registered addresses, near misses (other host, other port, port+65536, case, IP spelling, other network with equal string), unregistered addresses and malformed payloads, before / after / between Accept calls; the application accepts eagerly (Accept loop) or lazily, closes listeners with 0, 1, 2..20 un-accepted forwards, while Accept is blocked, while forwards are in flight, twice, after the transport ended. Case classes by index mod 8 force: backlog-then-close, fully serviced listener, address grid, transport end with blocked Accept, in-flight races, port-0/equal addresses, 2x free mixture. Oracle: registry of forward requests as seen by the server application; each open's outcome (token written by the server on the confirmed channel and read from the accepted conn / OPEN_FAILURE / unanswered) judged against it. Liveness verdicts only from the closed-system wait-for analysis: operation parked in x/crypto frames, every goroutine parked in 3 identical dumps (mon.Quiescent), key derived from the dump. distinct = (listener kind, un-accepted class, settled/in-flight, Accept blocked, second close, after conn end) per Close and (target class -> outcome) per open")
+	m.Rule("case = one scenario on its own connection: a real ssh.Client (public API) over a buffered in-memory duplex to a real ssh.NewServerConn whose application is the harness. The harness grants/refuses tcpip-forward / streamlocal-forward / cancel requests (port 0 -> assigned port, equal addresses granted twice, OpenSSH_5 retry path, malformed reply) and opens 0..20 forwarded-tcpip / forwarded-streamlocal channels per listener (own RFC 4254 §7.2 encoder) for registered addresses, near misses (other host, other port, port+65536, case, IP spelling, other network with equal string), unregistered addresses and malformed payloads, before / after / between Accept calls; the application accepts eagerly (Accept loop) or lazily, closes listeners with 0, 1, 2..20 un-accepted forwards, while Accept is blocked, while forwards are in flight, twice, after the transport ended. Case classes by index mod 8 force: backlog-then-close, fully serviced listener, address grid, transport end with blocked Accept, in-flight races, port-0/equal addresses, free mixture, forward-during-cancel (server opens 1..3 forwards for the address between receiving cancel-* and replying, reply held until the client is quiescent). Oracle: registry of forward requests as seen by the server application; each open's outcome (token written by the server on the confirmed channel and read from the accepted conn / OPEN_FAILURE / unanswered) judged against it. Liveness verdicts only from the closed-system wait-for analysis: operation parked in x/crypto frames, every goroutine parked in 3 identical dumps (mon.Quiescent), key derived from the dump. distinct = (listener kind, un-accepted class, settled/in-flight, Accept blocked, second close, after conn end) per Close and (target class -> outcome) per open")
 	m.Assume("the harness application services its listeners as documented unless the scenario is about not doing so for the listener being closed: at most 30 un-accepted forwards per connection (below the mux's 36-slot buffering, beyond which the read loop stalls by documented design); Listen is not called and the transport is not ended while an open, unserviced listener holds >= 2 un-accepted forwards")
 	m.Assume("goroutine states reported by runtime.Stack are accurate; the duplex has no timers or netpoller, so a snapshot in which every goroutine is parked on a channel/mutex/cond is a stable state")
 	m.Assume("when the server grants the same address twice, which of the equal listeners a Close affects is not determined by the property; such groups are judged as a group (counted: equal_addr_*)")
@@ -980,5 +1022,9 @@ func TestC37(t *testing.T) {
 	m.Gate("probe_after_close_returned", 200, "forward for an address whose listener's Close has returned")
 	m.Gate("listen_port0_server_assigned", 60, "port 0 request answered with a server-assigned port")
 	m.Gate("listen_equal_address_again", 40, "same address registered twice")
+	for _, kn := range []string{"Listen(tcp)", "ListenTCP", "ListenUnix", "Listen(unix)"} {
+		m.Gate("cancel_window_close_returned:"+kn, 15, "Close of a "+kn+" listener returned although the peer opened 1..3 forwards for its address between receiving the cancel request and replying")
+	}
+	m.Gate("cancel_window_forward_rejected", 100, "forwards sent inside the cancel round trip of a Close seen rejected")
 	m.Gate("burst_at_registration_resolved", 20, "forward sent between the server's success reply and Listen's return")
 }
